@@ -549,6 +549,8 @@ enum BOp {
     DeleteOldest(u8),
     DeleteAbsent,
     Reopen,
+    /// a key of the given length ('m' bytes): sweeps the free-space boundary of a leaf
+    InsertLen(u16),
 }
 
 fn bkey(k: u8) -> Vec<u8> {
@@ -632,6 +634,15 @@ fn btree_run(seq: &[BOp], dir: &std::path::Path) -> Option<(String, String)> {
                     }
                     model.m.entry(key).or_default().push(p);
                 }
+                BOp::InsertLen(len) => {
+                    let key = vec![b'm'; *len as usize];
+                    model.next_payload += 1;
+                    let p = model.next_payload;
+                    if let Err(e) = tree.insert(&mut pager, &key, p) {
+                        return Some(("insert_failed".into(), format!("step {step}: {e}")));
+                    }
+                    model.m.entry(key).or_default().push(p);
+                }
                 BOp::DeleteNewest(k) | BOp::DeleteOldest(k) => {
                     let key = bkey(*k);
                     let Some(list) = model.m.get_mut(&key) else { return Some(("harness".into(), "delete of absent key generated".into())) };
@@ -676,20 +687,25 @@ fn btree_run(seq: &[BOp], dir: &std::path::Path) -> Option<(String, String)> {
             let mut want_sorted = want.clone();
             want_sorted.sort();
             if got_sorted != want_sorted {
-                let short = |v: &[(Vec<u8>, u64)]| v.iter().map(|(k, p)| format!("{}{}:{p}", k[0] as char, if k.len() > 1 { "L" } else { "" })).collect::<Vec<_>>().join(",");
+                let short = |v: &[(Vec<u8>, u64)]| v.iter().map(|(k, p)| format!("{}{}:{p}", k.first().map(|b| *b as char).unwrap_or('?'), if k.len() > 1 { format!("[{}]", k.len()) } else { String::new() })).collect::<Vec<_>>().join(",");
                 let class = if got_sorted.len() < want_sorted.len() { "scan_misses_pairs" } else if got_sorted.len() > want_sorted.len() { "scan_has_extra_pairs" } else { "scan_wrong_pairs" };
                 return Some((class.into(), format!("step {step}: scan [{}] expected [{}]", short(&scan), short(&want))));
             }
             if scan.windows(2).any(|w| w[0].0 > w[1].0) {
                 return Some(("scan_out_of_key_order".into(), format!("step {step}")));
             }
-            for k in 0..4u8 {
-                let key = bkey(k);
-                let got = match btree_lookup(&tree, &pager, &key) {
+            let mut probe: Vec<Vec<u8>> = (0..4u8).map(bkey).collect();
+            for k in model.m.keys() {
+                if !probe.contains(k) {
+                    probe.push(k.clone());
+                }
+            }
+            for (k, key) in probe.iter().enumerate() {
+                let got = match btree_lookup(&tree, &pager, key) {
                     Ok(g) => g,
                     Err(e) => return Some(("lookup_failed".into(), format!("step {step}: {e}"))),
                 };
-                let want = model.m.get(&key).and_then(|l| l.last().copied());
+                let want = model.m.get(key).and_then(|l| l.last().copied());
                 if got != want {
                     let class = if got.is_none() { "lookup_misses_key" } else if want.is_none() { "lookup_finds_deleted_key" } else { "lookup_not_newest" };
                     return Some((class.into(), format!("step {step}: lookup(key {k}) = {got:?}, newest stored payload is {want:?}")));
@@ -706,7 +722,7 @@ fn btree_run(seq: &[BOp], dir: &std::path::Path) -> Option<(String, String)> {
 
 pub fn c26(tier: Tier) -> i32 {
     let rep = Report::new("C26", tier);
-    rep.rule("all enabled sequences up to the stated length over {insert(key, fresh payload) for 4 keys (2 short, 2 of 2000 bytes so that a leaf holds 4 cells), delete(newest pair of key), delete(oldest pair of key), delete(absent pair), reopen pager} executed on the real BTree + Pager from an empty tree; after EVERY step: full scan == reference multimap (as a multiset, keys non-decreasing), lookup(key) == most recently inserted payload for each key; then a longer family of pure insert sequences (all sequences over the 2 long keys up to the stated length) that reaches leaf and internal splits; non-trivial = sequences with at least one split (>= 5 long-key entries) or a delete");
+    rep.rule("all enabled sequences up to the stated length over {insert(key, fresh payload) for 4 keys (2 short, 2 of 2000 bytes so that a leaf holds 4 cells), delete(newest pair of key), delete(oldest pair of key), delete(absent pair), reopen pager} executed on the real BTree + Pager from an empty tree; after EVERY step: full scan == reference multimap (as a multiset, keys non-decreasing), lookup(key) == most recently inserted payload for each key; then (b) a longer family of pure insert sequences (all sequences over the 2 long keys up to the stated length) that reaches leaf and internal splits; (c) from a NON-INITIAL state of 12 long-key entries (3+ leaves) every sequence up to the stated length over delete newest / oldest of both keys and insert (empties whole leaves); (d) a leaf free-space boundary sweep: after 0..2 short and 3 long keys one key of every length 1..=2300 is inserted (every possible free gap relative to the cell size); non-trivial = sequences with at least one split (>= 5 long-key entries) or a delete");
     let ops = bops(4);
     let depth = tier.pick(6usize, 8);
     // enumerate level by level with enabledness; violating prefixes are not extended
@@ -820,6 +836,97 @@ pub fn c26(tier: Tier) -> i32 {
         }
     }
     rep.set("split_family", json!({"max_len": l, "sequences": total, "violating": fam_bad}));
+    // (c) non-initial start: 12 long-key entries (3+ leaves), then every sequence of deletes / inserts up to D
+    let pre: Vec<BOp> = (0..12).map(|i| BOp::Insert(2 + (i % 2) as u8)).collect();
+    let dops = [BOp::DeleteNewest(2), BOp::DeleteOldest(2), BOp::DeleteNewest(3), BOp::DeleteOldest(3), BOp::Insert(3)];
+    let dd = tier.pick(6u32, 8);
+    let dtotal: u64 = (1..=dd).map(|n| (dops.len() as u64).pow(n)).sum();
+    let dres: Vec<(Vec<BOp>, Option<(String, String)>)> = (0..dtotal)
+        .into_par_iter()
+        .map_init(
+            || scratch_dir("btd"),
+            |dir, mut idx| {
+                let n = dops.len() as u64;
+                let mut len = 1u32;
+                let mut block = n;
+                while idx >= block {
+                    idx -= block;
+                    block *= n;
+                    len += 1;
+                }
+                let mut s = pre.clone();
+                for _ in 0..len {
+                    s.push(dops[(idx % n) as usize]);
+                    idx /= n;
+                }
+                // skip sequences that delete more pairs of a key than are stored
+                let mut c = [6i32, 6];
+                let mut ok = true;
+                for op in &s[12..] {
+                    match op {
+                        BOp::DeleteNewest(k) | BOp::DeleteOldest(k) => {
+                            c[(*k - 2) as usize] -= 1;
+                            if c[(*k - 2) as usize] < 0 {
+                                ok = false;
+                            }
+                        }
+                        BOp::Insert(k) => c[(*k - 2) as usize] += 1,
+                        _ => {}
+                    }
+                }
+                if !ok {
+                    return (s, Some(("skip".to_string(), String::new())));
+                }
+                let r = btree_run(&s, dir);
+                (s, r)
+            },
+        )
+        .collect();
+    let mut dbad = 0;
+    let mut drun = 0u64;
+    for (s, r) in dres {
+        if matches!(&r, Some((c, _)) if c == "skip") {
+            continue;
+        }
+        drun += 1;
+        rep.add_states(1);
+        rep.add_traces(1);
+        rep.add_transitions(s.len() as u64);
+        rep.add_nontrivial(1);
+        if let Some((class, detail)) = r {
+            dbad += 1;
+            let tail: Vec<String> = s[12..].iter().map(|o| format!("{o:?}")).collect();
+            rep.violation(Violation { class: format!("prefilled_family:{class}"), kinds: tail.clone(), replay: json!({"engine":"btree","prefill":"12 alternating long-key inserts","sequence": tail}), detail });
+        }
+    }
+    rep.set("prefilled_family", json!({"prefill_entries": 12, "max_len": dd, "sequences_run": drun, "violating": dbad}));
+    // (d) leaf free-space boundary sweep: q short keys + 3 long keys, then one key of EVERY length 1..=2300
+    let sweep: Vec<(u16, u16)> = (0..3u16).flat_map(|q| (1..=2300u16).map(move |l| (q, l))).collect();
+    let sres: Vec<((u16, u16), Option<(String, String)>)> = sweep
+        .par_iter()
+        .map_init(
+            || scratch_dir("bts"),
+            |dir, &(q, l)| {
+                let mut s: Vec<BOp> = (0..q).map(|i| BOp::Insert((i % 2) as u8)).collect();
+                s.extend([BOp::Insert(2), BOp::Insert(3), BOp::Insert(2)]);
+                s.push(BOp::InsertLen(l));
+                s.push(BOp::Insert(0));
+                ((q, l), btree_run(&s, dir))
+            },
+        )
+        .collect();
+    let mut sbad = 0;
+    for ((q, l), r) in sres {
+        rep.add_states(1);
+        rep.add_traces(1);
+        rep.add_transitions(5 + q as u64);
+        rep.add_nontrivial(1);
+        if let Some((class, detail)) = r {
+            sbad += 1;
+            rep.violation(Violation { class: format!("boundary_sweep:{class}"), kinds: vec![format!("short_keys={q}"), format!("len={l}")], replay: json!({"engine":"btree","short_keys": q, "long_keys": 3, "insert_len": l}), detail });
+        }
+    }
+    rep.set("boundary_sweep", json!({"runs": 6900, "violating": sbad}));
     rep.finish()
 }
 
